@@ -170,3 +170,95 @@ func c10Total(c *vrep.Ctx) {
 		}
 	})
 }
+
+// c10_window: every boundary symbol at every byte offset around the tokenizer's buffer
+// boundaries (1020/1024 and their multiples), so that each multi-byte rune, blank, line break,
+// hyphen and invalid byte straddles or touches a refill point in every phase.
+var c10WinSyms = []struct{ name, text string }{
+	{"a", "a"}, {"SP", " "}, {"TAB", "\t"}, {"NL", "\n"}, {"CRLF", "\r\n"}, {"-", "-"}, {"-NL", "-\n"}, {".", "."}, {"1.", "1."},
+	{"xff", "\xff"}, {"xe2", "\xe2"}, {"xe2x80", "\xe2\x80"}, {"xf0x9f", "\xf0\x9f"}, {"NUL", "\x00"},
+	{"NBSP", "\u00a0"}, {"NEL", "\u0085"}, {"LSEP", "\u2028"}, {"PSEP", "\u2029"}, {"IDEOSP", "\u3000"}, {"OGHAMSP", "\u1680"}, {"ENQUAD", "\u2000"}, {"NNBSP", "\u202f"},
+	{"BOM", "\ufeff"}, {"HYPHEN2010", "\u2010"}, {"ENDASH", "\u2013"}, {"EMDASH", "\u2014"}, {"COPYRIGHT-SIGN", "\u00a9"}, {"e-acute", "\u00e9"}, {"CJK", "\u4e16"}, {"EMOJI", "\U0001F600"},
+	{"LDQUO", "\u201c"}, {"U+0130", "\u0130"}, {"&amp;", "&amp;"}, {"&#8232;", "&#8232;"}, {"copyright", "copyright 2000 x"}, {"https", "https://a"},
+}
+
+func init() { vRegister("c10_window", c10Window) }
+
+func c10Window(c *vrep.Ctx) {
+	fillers := []struct{ name, unit string }{{"words", "aa bb "}, {"one word", "a"}, {"lines", "aa\n"}, {"blanks", " "}, {"3-byte runes", "\u4e16 "}, {"2-byte runes", "\u00e9"}, {"blank lines", "\n"}}
+	ctxs := []string{"a", " ", "-", "\n"}
+	follows := []string{"", "b", " bb cc aa bb", "\nbb"}
+	var offs []int
+	for _, base := range []int{1020, 2040, 3060}[:c.Pick(2, 3)] {
+		for d := -9; d <= 6; d++ {
+			offs = append(offs, base+d)
+		}
+	}
+	ts := []float64{0.8, 0}
+	if !c.Thorough() {
+		// quick tier: 5 fillers, 3 context bytes, 3 follow-ups, one threshold
+		fillers, ctxs, follows, ts = fillers[:5], ctxs[:3], follows[:3], ts[:1]
+	}
+	apis := []string{"Match", "MatchFrom(1-byte reads)", "Normalize", "AddContent+Match"}
+	cls := make([]*Classifier, len(ts))
+	for i, t := range ts {
+		cls[i] = c10Corpus(3, t)
+	}
+	c.R.Rule = fmt.Sprintf("ALL inputs filler[0:p-1] + context byte + symbol + follow-up: %d symbols (blanks and line separators of 1-3 bytes, truncated and complete multi-byte runes, hyphens, entities, notices) x EVERY offset p in base-9..base+6 for base in multiples of the 1020-byte tokenizer window (%d offsets) x %d fillers (words, one long word, lines, blanks, blank lines, 2- and 3-byte runes) x context byte %q x %d follow-ups x {Match, MatchFrom with 1-byte reads, Normalize, AddContent-then-Match} x thresholds %v; monitor: recover() around every call, caller's bytes unchanged; non-trivial = distinct (input, api, threshold) cases", len(c10WinSyms), len(offs), len(fillers), ctxs, len(follows), ts)
+	c.Bound("offsets", fmt.Sprint(offs))
+	body := func(r *vx.Run) {
+		sym := c10WinSyms[r.Choose(len(c10WinSyms), "symbol")]
+		p := offs[r.Choose(len(offs), "offset")]
+		if r.Scout() {
+			return
+		}
+		fl := fillers[r.Choose(len(fillers), "filler")]
+		cx := ctxs[r.Choose(len(ctxs), "context")]
+		fo := follows[r.Choose(len(follows), "follow")]
+		fill := strings.Repeat(fl.unit, p/len(fl.unit)+1)[:p-1]
+		in := []byte(fill + cx + sym.text + fo)
+		keep := append([]byte(nil), in...)
+		id := fmt.Sprintf("%s[0:%d]+%q+%s+%q", fl.name, p-1, cx, sym.name, fo)
+		var msgs []string
+		for ti, cl := range cls {
+			for ai, api := range apis {
+				msg := vPanics(func() {
+					switch ai {
+					case 0:
+						cl.Match(in)
+					case 1:
+						if _, err := cl.MatchFrom(iotest.OneByteReader(bytes.NewReader(in))); err != nil {
+							panic("unexpected error " + err.Error())
+						}
+					case 2:
+						cl.Normalize(in)
+					case 3:
+						fresh := c10Corpus(3, ts[ti])
+						fresh.AddContent("License", "Added", "license.txt", in)
+						fresh.Match(in)
+					}
+				})
+				c.R.Evaluations++
+				c.R.Nontrivial++
+				if msg != "" {
+					msgs = append(msgs, fmt.Sprintf("%s T=%v: panic: %s", api, ts[ti], msg))
+				}
+				if !bytes.Equal(in, keep) {
+					msgs = append(msgs, fmt.Sprintf("%s T=%v: panic: the caller's byte slice was modified", api, ts[ti]))
+					copy(in, keep)
+				}
+			}
+		}
+		r.Note = map[string]interface{}{"id": id, "msgs": msgs}
+	}
+	c.Run(vSplitExplorer(c, 0, 2), body, func(r *vx.Run) {
+		c.R.Evaluations--
+		id := r.Note["id"].(string)
+		if c.R.Evaluations%40000 < 8 {
+			c.Sample(map[string]interface{}{"input": id})
+		}
+		for _, m := range r.Note["msgs"].([]string) {
+			c.Violate(fmt.Sprintf("c10_window:%s:%s", id, strings.SplitN(m, ": panic", 2)[0]), fmt.Sprintf("input %s: %s", id, m), r, m)
+		}
+	})
+}
